@@ -208,23 +208,31 @@ def run(ctx):
                     ob.require(ok, 'a child is produced without serialising the index as ser32(i) (which refuses values '
                                    'outside 0..2^32-1)', fi.where, expected='key and chain code depend on SER(i, 4, big)')
     # ---------------------------------------------------------------- by_path and the derive_path fold
+    check_bypath(ctx, 'C17.BYPATH')
+    check_fold(ctx, 'C17.FOLD')
+
+
+def check_bypath(ctx, rule):
+    """by_path on a wallet over any node (private master, private or public node of any depth / child number) is the
+    fold of the parsed components from that node: nothing is dropped, prefixed or re-interpreted."""
+    p = ctx.p
     fbp = p.get_function('base_wallet.BaseWallet.by_path')
-    with ctx.obligation('C17.BYPATH', 'BaseWallet.by_path', None, fbp.where) as ob:
+    with ctx.obligation(rule, 'BaseWallet.by_path', None, fbp.where) as ob:
         summ = dict(X.DEFAULT_SUMMARIES)
         summ['wallet_utils.Bip32Path.parse'] = lambda ev_, fi, env, facts: (T.raw_op('PARSE', env[fi.params[1]]), facts)
         summ['bip32.PubKeyNode.derive_path'] = lambda ev_, fi, env, facts: (
             T.raw_op('DERIVE', env[fi.params[0]], env[fi.params[1]]), facts)
-        e3 = Evaluator(p, 'ecdsa', summaries=summ)
-        m, k = master_prv()
-        w = T.obj(PKG + '.base_wallet.BaseWallet', dict(master=m, testnet=S('testnet', type='bool'), mnemonic=T.NONE,
-                                                        password=T.NONE, bip85=T.NONE))
-        path = S('path', type='str')
-        v, f = e3.call_function('base_wallet.BaseWallet.by_path', [w, path])
-        ok = T.is_op(v, 'DERIVE') and v[2] == m and T.is_op(v[3], 'METHOD') and v[3][2] == T.raw_op('PARSE', path) \
-            and v[3][3] == T.const('to_list')
-        ob.require(ok, 'by_path(path) is master.derive_path(Bip32Path.parse(path).to_list())', fbp.where,
-                   found=T.show(v, maxdepth=5))
-    check_fold(ctx, 'C17.FOLD')
+        for what, m in (('private master', master_prv()[0]), ('private node of any depth', prv_node('32')[0]),
+                        ('public (watch-only) node of any depth', pub_node()[0])):
+            e3 = Evaluator(p, 'ecdsa', summaries=summ)
+            tn = T.obj_fields(m)['testnet']
+            w = mk_wallet(p, 'ecdsa', m, tn)
+            path = S('path', type='str')
+            v, f = e3.call_function('base_wallet.BaseWallet.by_path', [w, path])
+            ok = T.is_op(v, 'DERIVE') and v[2] == m and T.is_op(v[3], 'METHOD') and v[3][2] == T.raw_op('PARSE', path) \
+                and v[3][3] == T.const('to_list')
+            ob.require(ok, 'by_path(path) on a wallet over a %s is master.derive_path(Bip32Path.parse(path).to_list())' % what,
+                       fbp.where, found=T.show(v, maxdepth=5))
 
 
 def check_fold(ctx, rule):
